@@ -933,6 +933,7 @@ class Pyramid(object):
     def _walk_parallel(self, callback, cli_progress, parallel):
         import multiprocessing as mp
         from queue import Empty
+        from .par_util import check_workers
 
         # When dispatching we keep track of finished tiles (reported in
         # `done_queue`) and notify workers when new tiles are ready to process
@@ -1033,6 +1034,11 @@ class Pyramid(object):
                 except (OSError, ValueError, Empty):
                     # OSError or ValueError => queue closed. This signal seems not to
                     # cross multiprocess lines, though.
+                    #
+                    # If a worker died, the tiles above the one it was handling
+                    # will never become ready; report that rather than waiting
+                    # forever.
+                    check_workers(workers, done_event, (ready_queue,))
                     continue
 
                 progress.update(1)
@@ -1064,6 +1070,8 @@ class Pyramid(object):
 
         for w in workers:
             w.join()
+
+        check_workers(workers)
 
     def visit_leaves(
         self,
@@ -1158,6 +1166,7 @@ class Pyramid(object):
 
     def _visit_leaves_parallel(self, callback, total, cli_progress, parallel):
         import multiprocessing as mp
+        from .par_util import check_workers, put_checking_workers
 
         ready_queue = mp.Queue(maxsize=2 * parallel)
         done_event = mp.Event()
@@ -1182,7 +1191,7 @@ class Pyramid(object):
         with progress_bar(total=total, show=cli_progress) as progress:
             for pos, tile, is_leaf, _data in riter:
                 if is_leaf:
-                    ready_queue.put((pos, tile))
+                    put_checking_workers(ready_queue, (pos, tile), workers, done_event)
                     progress.update(1)
 
                 riter.set_data(None)
@@ -1195,6 +1204,8 @@ class Pyramid(object):
 
         for w in workers:
             w.join()
+
+        check_workers(workers)
 
 
 class PyramidReductionIterator(object):
